@@ -71,6 +71,7 @@ type Frame struct {
 }
 
 type Exec struct {
+	immCap map[*ssa.FreeVar]string // immutable captured variables of the closure under verification: their value
 	fwCount map[string]int // ordinals of field-write obligations
 	privSlice map[*ssa.Alloc]bool // cache of privateSliceCell
 	loopOwner *FuncContract // contract whose loop clauses cut the loops of the function being executed
@@ -867,6 +868,31 @@ func (x *Exec) execFunc(fr *Frame, st *State) (*State, []string) {
 			fmt.Printf("exec %s block %d edges=%d\n", fn.Name(), b.Index, len(edges))
 		}
 		cur := x.mergeEdges(fr, b, edges)
+		// exit-let: b is where a loop with exit-lets is left (a successor of a loop block outside
+		// the loop): bind the names in the merged state
+		if fr.contract != nil && fr.depth == 0 {
+			for _, h := range headers {
+				spec := fr.contract.Loops[loopIdx[h]]
+				if spec == nil || len(spec.ExitLets) == 0 {
+					continue
+				}
+				body := loopBlocks(h)
+				isExit := false
+				for _, p := range b.Preds {
+					if body[p] && !body[b] {
+						isExit = true
+					}
+				}
+				if isExit {
+					env := x.invEnv(fr, cur)
+					for _, l := range spec.ExitLets {
+						v := x.evalSpec(env, l.Expr)
+						v.term = x.vc.define("exitlet_"+l.Name, x.vc.sortOf(v.typ), v.term)
+						fr.lets[l.Name] = v
+					}
+				}
+			}
+		}
 		if isLoopHeader(b) {
 			if pureHeader(b) {
 				// peel the zero-iteration case: run the (side-effect free) header once on the
